@@ -185,6 +185,20 @@ pub enum Verdict {
     May(MTable),
 }
 
+/// The part of `e` that can still take effect after `between`: a positional column-file swap
+/// (data replacement) has no effect on rows a concurrent commit deleted; those uids stay deleted
+/// and are not counted as rows both transactions changed.
+pub fn effective<'a>(e: &'a Effect, between: &[Committed]) -> std::borrow::Cow<'a, Effect> {
+    let mut e = std::borrow::Cow::Borrowed(e);
+    if e.kind == "data_replacement" {
+        let gone: BTreeSet<i32> = between.iter().flat_map(|c| c.deleted.iter().copied()).collect();
+        if e.updated.keys().any(|u| gone.contains(u)) {
+            e.to_mut().updated.retain(|u, _| !gone.contains(u));
+        }
+    }
+    e
+}
+
 /// Apply `e` (computed at a read version whose table was `read`) on top of `latest`, given what
 /// was committed in between.
 pub fn apply(e: &Effect, read: &MTable, latest: &MTable, between: &[Committed]) -> Verdict {
@@ -196,15 +210,7 @@ pub fn apply(e: &Effect, read: &MTable, latest: &MTable, between: &[Committed]) 
         }
         return Verdict::May(t);
     }
-    let mut e = std::borrow::Cow::Borrowed(e);
-    if e.kind == "data_replacement" {
-        // a positional column-file swap has no effect on rows a concurrent commit deleted: those
-        // uids stay deleted and are not counted as a row both transactions changed
-        let gone: BTreeSet<i32> = between.iter().flat_map(|c| c.deleted.iter().copied()).collect();
-        if e.updated.keys().any(|u| gone.contains(u)) {
-            e.to_mut().updated.retain(|u, _| !gone.contains(u));
-        }
-    }
+    let e = effective(e, between);
     let e: &Effect = &e;
     let touched = e.touched();
     let mut their_touched: BTreeSet<i32> = BTreeSet::new();
